@@ -399,7 +399,11 @@ func (s *c19Scn) waitSessionInit(filter *TrzszFilter) {
 	time.Sleep(time.Millisecond)
 }
 
-func (s *c19Scn) feedSrv(kind, veto, start string) {
+func (s *c19Scn) feedSrv(kind, veto, start string, short bool) {
+	cancel := zmodemCancelFullSequence
+	if short {
+		cancel = zmodemCancelSubSequence // five CAN bytes are enough for the code's detector
+	}
 	s.nextID++
 	id := s.nextID
 	tok := fmt.Sprintf("#c19:%d;", id)
@@ -414,7 +418,7 @@ func (s *c19Scn) feedSrv(kind, veto, start string) {
 	case "fin":
 		b = []byte("**\x18B0800000000022d\r\x8a" + tok)
 	case "can":
-		b = append(append([]byte(nil), zmodemCancelFullSequence...), tok...)
+		b = append(append([]byte(nil), cancel...), tok...)
 	case "cno":
 		b = []byte("sz: cannot open /nonexistent: No such file or directory\r\n" + tok)
 	case "probe":
@@ -422,7 +426,7 @@ func (s *c19Scn) feedSrv(kind, veto, start string) {
 	}
 	switch veto {
 	case "can":
-		b = append(b, zmodemCancelFullSequence...)
+		b = append(b, cancel...)
 	case "cno":
 		b = append(b, []byte("\r\nsz: cannot open /nonexistent: No such file or directory\r\n")...)
 	}
@@ -563,13 +567,15 @@ func (s *c19Scn) run(plan map[string]any, env *c19Env) {
 			if up {
 				k = "hdr1"
 			}
-			s.feedSrv(k, veto, start)
+			short, _ := m["short"].(bool)
+			s.feedSrv(k, veto, start, short)
 			if early, _ := m["early"].(bool); !early {
 				s.waitSessionInit(filter)
 			}
 		case "srv":
 			k, _ := m["k"].(string)
-			s.feedSrv(k, "none", "-")
+			short, _ := m["short"].(bool)
+			s.feedSrv(k, "none", "-", short)
 		case "ctrlc", "text":
 			s.feedCli(m["a"].(string))
 		case "hout":
